@@ -412,6 +412,8 @@ theorem handleJ_outcome (c0 : RQJ.Config) (s : SysJ N) (i : Fin N) (inp : InputJ
     · rw [if_neg h]; exact OutcomeJ.stay' rfl
   | applyTo k => exact outcomeJ_applyFold c0 i _ s
   | beat => exact OutcomeJ.stay' rfl
+  | snapStatus src failed => exact OutcomeJ.stay' rfl
+  | unreachable src => exact OutcomeJ.stay' rfl
   | restart a =>
     exact outcomeJ_of_step (StepJ.restart s i a hen) (by simp [handleJ, cRestart, SysJ.put]) (fun _ h => h) (fun _ h => by cases h)
   | selfAck =>
